@@ -93,6 +93,12 @@ class Node:
         return f"n{self.k}" if self.k else "root_node"
 
 
+def setname(j):
+    """Section name of __start_/__stop_ set j: every shape of C identifier (leading underscore(s),
+    capitals, digits inside), since the linker decides start/stop eligibility from the name."""
+    return ("gset%d", "_gset%d", "__gset_%d", "G9set%d_")[j % 4] % j
+
+
 def gen_graph(r, quick):
     """Returns dict(sources={name: text}, plan=..., mode, ...). Pure function of r."""
     mode = r.choice(["exe", "exe", "exe", "exe-script", "pie-E", "pie", "shared"])
@@ -256,7 +262,7 @@ def gen_graph(r, quick):
         A(f"    .quad {tag if tag is not None else nd.tag}, {nd.k}, {len(nd.edges)}")
         for how, t in nd.edges:
             if how == "set":
-                A(f"    .quad 1, __start_gset{t}, __stop_gset{t}")
+                A(f"    .quad 1, __start_{setname(t)}, __stop_{setname(t)}")
             elif how == "func":
                 A(f"    .quad 2, f{t}, 0")
             elif how == "init":
@@ -297,7 +303,7 @@ def gen_graph(r, quick):
         for file, t in ents:
             if nodes[t].bind == "local" and nodes[t].file != file:
                 file = nodes[t].file
-            texts[file].append(f'    .section gset{j},"aw",@progbits\n    .balign 8\n    .quad {nodes[t].sym}')
+            texts[file].append(f'    .section {setname(j)},"aw",@progbits\n    .balign 8\n    .quad {nodes[t].sym}')
     for file, t, suffix in init_entries:
         if nodes[t].bind == "local":
             file = nodes[t].file
